@@ -102,6 +102,7 @@ func init() {
 			k.NoFaults, k.PFault, k.PPanic = false, 4, 50
 			k.WCycleCloser = 1
 			k.PSide = 8 // bodies that call String / Visualize / Scope / Provide / Decorate on the container
+			k.PSideKey = 4
 			return k
 		},
 		clauses: []string{CUserCodeOutsideInvoke, COutsideClosure, CMustRunMissing, CBadExec, CUnregisteredRan},
@@ -155,6 +156,7 @@ func init() {
 			// (cycle-closing) registrations
 			k.NoFaults, k.PFault, k.PPanic = false, 4, 50
 			k.WCycleCloser = 1
+			k.PSideKey = 7 // constructor bodies that register a constructor for a fresh key while they run
 			return k
 		},
 		clauses: []string{CProvSingle, CFromNowhere, CVerdictInvoke, CGroupForeign, CGroupMultiset, CZeroAvailable, CBadExec},
@@ -269,6 +271,7 @@ func init() {
 			k.MaxOps = 26
 			k.WCycleCloser = 1 // after a cycle-rejected registration the state must be intact
 			k.PSide = 8        // bodies that call String / Visualize / Scope / Provide / Decorate on the container
+			k.PNamedSlice = 25 // decorators and consumers that declare one group with different (named) slice types
 			return k
 		},
 		clauses: []string{CVerdictDecorate, CExecTwice, CProvSingle, CGroupMultiset, CFromNowhere, CBadExec, CZeroRequired},
